@@ -36,6 +36,9 @@ def gen_value(rng, feat, depth=0, placeholders=None):
     if depth < 2 and r < 0.15:
         return [gen_value(rng, feat, depth + 1, placeholders) for _ in range(rng.randint(0, 3))]
     if depth < 2 and r < 0.3:
+        if placeholders and rng.random() < 0.25:
+            # mapping KEYS that contain braces: keys are not substituted, they are ordinary text
+            return {'{' + ph + '}' + rng.choice(['', 'k']): gen_value(rng, feat, depth + 1, placeholders) for ph in rng.sample(placeholders, rng.randint(2, len(placeholders)))}
         return {rng.choice(['k', 'j', 'kk', 'a']) + str(i): gen_value(rng, feat, depth + 1, placeholders) for i in range(rng.randint(0, 3))}
     if r < 0.5:
         return rng.choice([0, 1, 2, 5, -3, 10 ** 12, 7])
